@@ -360,7 +360,7 @@ def run_workload(w):
                                          explicit=[ctl.jobidx.get(id(d.origin), -1) for d in cfg.__xpm__.dependencies
                                                    if isinstance(d, JobDependency)])
             values[j] = cfg.submit(init_tasks=init) if init else cfg.submit()
-            job = cfg.__xpm__.job
+            job = ctl.jobs[j]                   # the Job object created for this submission
             deps = []
             for d in job.dependencies:          # iteration order of the set = order used by the scheduler
                 if isinstance(d, JobDependency):
